@@ -317,10 +317,11 @@ fn main() {
         let mut timed_out = false;
         match mode.as_str() {
             "compile" => {
-                let d = write_files(&dir, &idstr, &c["files"]);
+                let mut d = write_files(&dir, &idstr, &c["files"]);
+                if let Some(x) = c["incdir"].as_str() { d = x.to_string(); }
                 for v in c["variants"].as_array().unwrap() {
                     let mut a: Vec<String> = v["args"].as_array().map(|a| a.iter().map(|x| x.as_str().unwrap().to_string()).collect()).unwrap_or_default();
-                    if c["files"].is_object() {
+                    if c["files"].is_object() || c["incdir"].is_string() {
                         a.push("-I".into());
                         a.push(d.clone());
                     }
@@ -338,7 +339,8 @@ fn main() {
                 }
             }
             "cpp" => {
-                let d = write_files(&dir, &idstr, &c["files"]);
+                let mut d = write_files(&dir, &idstr, &c["files"]);
+                if let Some(x) = c["incdir"].as_str() { d = x.to_string(); }
                 let defines = c["defines"].as_array().map(|a| a.iter().map(|x| x.as_str().unwrap().to_string()).collect()).unwrap_or_default();
                 let query = c["query"].as_array().map(|a| a.iter().map(|x| x.as_str().unwrap().to_string()).collect()).unwrap_or_default();
                 let mut o = cpp_one(c["src"].as_str().unwrap().to_string(), c["file"].as_str().unwrap_or("main.c").to_string(),
